@@ -94,3 +94,146 @@ theorem rsTail_gen (k : Nat) : ∀ (fuel n : Nat) (out : Bytes) (tr : Bool), Tai
         fun h => by have := Nat.pow_pos (n := k) (by decide : 0 < 2); omega⟩
 
 end C03
+
+namespace C03
+open Num Spec.NumText
+
+/-- what one buffer-limited shift step does to the value: a floor on the grid `10^(dp' − 800)`,
+with the truncation flag set exactly when the step was inexact -/
+structure StepRes (a a' : Dc) (f : ℚ) : Prop where
+  wf : WF a'
+  ne : a'.d ≠ []
+  trimmed : Trimmed a'
+  neg : a'.neg = a.neg
+  le : dval a' ≤ dval a * f
+  lt : dval a * f < dval a' + (10 : ℚ) ^ (a'.dp - 800)
+  exact : dval a' = dval a * f → a'.trunc = a.trunc
+  inexact : dval a' ≠ dval a * f → a'.trunc = true
+
+/-- **rightShift(a, k) with the buffer limit**: the quotient cut to 800 digits -/
+theorem rightShift_floor (a : Dc) (k : Nat) (hk1 : 1 ≤ k) (hk : k ≤ 60) (hwf : WF a) (hne : a.d ≠ []) :
+    StepRes a (rightShift a k) (1 / (2 : ℚ) ^ k) := by
+  have hlead : 0 < 0 ∨ ∃ c cs, a.d = c :: cs ∧ c ≠ 48 := by
+    right
+    cases hd : a.d with
+    | nil => exact absurd hd hne
+    | cons c cs => exact ⟨c, cs, rfl, hwf.lead c cs hd⟩
+  obtain ⟨n1, r1, rest, pad, e1, v1, rr, hpad, g1, b1, hr⟩ := rsPick_spec k hk a.d 0 0 hwf.dig hlead (fun _ => trivial)
+  have hp2 : 0 < 2 ^ k := Nat.pow_pos (by decide)
+  have b1' := b1 (by omega)
+  obtain ⟨m1, m2, m3, m4, pre2, m5, m6⟩ := rsMain_spec k rest n1 [] hr b1' rfl
+  have hrs : rightShift a k =
+      ({ a with d := (rsTail k 64 (rsMain k rest n1 []).1 (rsMain k rest n1 []).2.length (rsMain k rest n1 []).2 a.trunc).1.reverse,
+                dp := a.dp - ((r1 : Int) - 1),
+                trunc := (rsTail k 64 (rsMain k rest n1 []).1 (rsMain k rest n1 []).2.length (rsMain k rest n1 []).2 a.trunc).2 } : Dc).trim := by
+    unfold rightShift; rw [e1]
+  generalize hn2 : (rsMain k rest n1 []).1 = n2 at *
+  generalize ho2 : (rsMain k rest n1 []).2 = out2 at *
+  have hok : TailOK k 64 n2 := Or.inr ⟨0, by omega, by simp, by omega⟩
+  have hrestlen : rest.length ≤ a.d.length := by
+    by_cases hp0 : 0 < pad
+    · rw [hpad hp0]; simp
+    · omega
+  have hl2 : out2.length ≤ bufLen := by
+    rw [m3]; simp only [List.length_nil, Nat.zero_add]; have := hwf.len; omega
+  obtain ⟨p, R, t1, tR, t2, tlen, t3, tex, tin, pre3, t5, t6⟩ := rsTail_gen k 64 n2 out2 a.trunc hok m2 m4 hl2
+  generalize ho3 : (rsTail k 64 n2 out2.length out2 a.trunc).1 = out3 at *
+  generalize htr3 : (rsTail k 64 n2 out2.length out2 a.trunc).2 = tr3 at *
+  have v0 : valOf 10 ([] : Bytes) = 0 := rfl
+  simp only [List.reverse_nil, v0, Nat.mul_zero, Nat.zero_add, List.length_nil, List.nil_append] at m1 m3 m5
+  let b : Dc := { a with d := out3.reverse, dp := a.dp - ((r1 : Int) - 1), trunc := tr3 }
+  have hb : rightShift a k = b.trim := hrs
+  have hfirst : ∃ c cs, out3.reverse = c :: cs ∧ c ≠ 48 := by
+    rw [t5, m5]
+    cases hrest : rest with
+    | nil =>
+      have hl0 : out2.length = 0 := by rw [m3, hrest]; rfl
+      have h0 : out2 = [] := List.length_eq_zero_iff.mp hl0
+      have : pre2 = [] := by
+        rw [h0] at m5; simpa using m5.symm
+      have hn21 : n2 = n1 := by
+        have := hn2; rw [hrest] at this; simpa [rsMain] using this.symm
+      obtain ⟨c, t, hc, hc48⟩ := t6 (by rw [hn21]; exact g1) (by rw [hl0]; decide)
+      exact ⟨c, t, by rw [this, hc]; rfl, hc48⟩
+    | cons x xs =>
+      obtain ⟨c, t, hc, hc48⟩ := m6 (by rw [hrest]; simp) g1
+      exact ⟨c, t ++ pre3, by rw [hc]; rfl, hc48⟩
+  obtain ⟨c, cs, hcs, hc48⟩ := hfirst
+  have hbwf : WF b := by
+    refine ⟨?_, by show out3.reverse.length ≤ bufLen; rw [List.length_reverse]; exact tlen, ?_⟩
+    · show out3.reverse.all isDec = true
+      rw [List.all_reverse]; exact t3
+    · intro c' cs' h
+      have : b.d = out3.reverse := rfl
+      rw [this, hcs] at h; injection h with h _; rw [← h]; exact hc48
+  have hbne : b.d ≠ [] := by show out3.reverse ≠ []; rw [hcs]; simp
+  obtain ⟨w1, w2, w3, w4, w5, w6⟩ := trim_wf b hbwf hbne
+  have hdp : b.trim.dp = a.dp - ((r1 : Int) - 1) := by
+    unfold Dc.trim
+    have : trimZeros b.d ≠ [] := w2
+    simp only [this, if_false]
+    rfl
+  -- the value
+  have hNat : 10 * 2 ^ k * valOf 10 out3.reverse + R = valOf 10 a.d * 10 ^ (pad + p) := by
+    rw [t1, m1]
+    simp only [Nat.zero_mul, Nat.zero_add] at v1
+    rw [v1, Nat.pow_add]; ring
+  have hlen3 : (out3.reverse.length : Int) = rest.length + p := by
+    rw [List.length_reverse, t2, m3]; push_cast; ring
+  have hr1 : (r1 : Int) + rest.length = a.d.length + pad := by
+    have := rr; simp only [Nat.zero_add] at this; exact_mod_cast this
+  have hexp : a.dp - ((r1 : Int) - 1) - (out3.reverse.length : Int) = (a.dp - a.d.length) + 1 - ((pad + p : Nat) : Int) := by
+    rw [hlen3]; push_cast; omega
+  have hU : (0 : ℚ) < (10 : ℚ) ^ (a.dp - ((r1 : Int) - 1) - (out3.reverse.length : Int)) := by positivity
+  have hval : dval a * (1 / (2 : ℚ) ^ k) = dval b +
+      ((R : ℚ) / (10 * (2 : ℚ) ^ k)) * (10 : ℚ) ^ (a.dp - ((r1 : Int) - 1) - (out3.reverse.length : Int)) := by
+    show (valOf 10 a.d : ℚ) * (10 : ℚ) ^ (a.dp - a.d.length) * (1 / (2 : ℚ) ^ k) =
+      (valOf 10 out3.reverse : ℚ) * (10 : ℚ) ^ (a.dp - ((r1 : Int) - 1) - (out3.reverse.length : Int)) + _
+    have hN : ((10 * 2 ^ k * valOf 10 out3.reverse + R : Nat) : ℚ) = ((valOf 10 a.d * 10 ^ (pad + p) : Nat) : ℚ) := by rw [hNat]
+    push_cast at hN
+    rw [hexp, zpow_sub₀ (by norm_num : (10 : ℚ) ≠ 0), zpow_add₀ (by norm_num : (10 : ℚ) ≠ 0), zpow_natCast]
+    have h10 : (10 : ℚ) ^ (pad + p) ≠ 0 := by positivity
+    have h2 : (2 : ℚ) ^ k ≠ 0 := by positivity
+    have hNq : (valOf 10 a.d : ℚ) = (10 * (2 : ℚ) ^ k * (valOf 10 out3.reverse : ℚ) + R) / (10 : ℚ) ^ (pad + p) := by
+      rw [eq_div_iff h10]; linarith
+    rw [hNq]
+    field_simp
+  have hR0 : (0 : ℚ) ≤ (R : ℚ) / (10 * (2 : ℚ) ^ k) := by positivity
+  have hR1 : (R : ℚ) / (10 * (2 : ℚ) ^ k) < 1 := by
+    rw [div_lt_one (by positivity)]
+    exact_mod_cast tR
+  rw [hb]
+  refine ⟨w1, w2, w3, w5, ?_, ?_, ?_, ?_⟩
+  · rw [w4, hval]
+    have := mul_nonneg hR0 hU.le
+    linarith
+  · rw [w4, hdp, hval]
+    by_cases hR : R = 0
+    · subst hR
+      simp only [Nat.cast_zero, zero_div, zero_mul, add_zero]
+      have : (0 : ℚ) < (10 : ℚ) ^ (a.dp - ((r1 : Int) - 1) - 800) := by positivity
+      linarith
+    · have hl800 : (out3.reverse.length : Int) = 800 := by
+        rw [List.length_reverse, (tin hR).2]; rfl
+      rw [hl800] at hU ⊢
+      have := mul_lt_mul_of_pos_right hR1 hU
+      linarith
+  · intro heq
+    rw [w4, hval] at heq
+    have hz : (R : ℚ) / (10 * (2 : ℚ) ^ k) * (10 : ℚ) ^ (a.dp - ((r1 : Int) - 1) - (out3.reverse.length : Int)) = 0 := by linarith
+    have hR : R = 0 := by
+      rcases mul_eq_zero.mp hz with h | h
+      · rw [div_eq_zero_iff] at h
+        rcases h with h | h
+        · exact_mod_cast h
+        · exfalso; have : (0 : ℚ) < 10 * (2 : ℚ) ^ k := by positivity
+          linarith
+      · exfalso; linarith
+    rw [w6]; exact tex hR
+  · intro hneq
+    rw [w6]
+    by_cases hR : R = 0
+    · exfalso; apply hneq; rw [w4, hval, hR]; simp
+    · exact (tin hR).1
+
+end C03
